@@ -30,6 +30,7 @@ import (
 	"strconv"
 	"strings"
 	"sync"
+	"syscall"
 	"time"
 
 	"verifharness/vlib"
@@ -770,7 +771,7 @@ func (ch *child) play(sc *Scenario) (*played, bool) {
 	}
 	got := make(chan rd, 1)
 	go func() { l, err := ch.out.ReadBytes('\n'); got <- rd{l, err} }()
-	to := 150 * time.Second
+	to := 300 * time.Second
 	if sc.Long || sc.Mode == "hammer" {
 		to = 15 * time.Minute
 	}
@@ -786,6 +787,11 @@ func (ch *child) play(sc *Scenario) (*played, bool) {
 		}
 		return &played{res: &res}, true
 	case <-time.After(to):
+		// ask the runtime for a goroutine dump before the process is killed
+		if ch.cmd.Process != nil {
+			_ = ch.cmd.Process.Signal(syscall.SIGQUIT)
+			time.Sleep(3 * time.Second)
+		}
 		return &played{hung: true, stderr: ch.stderr.String()}, false
 	}
 }
@@ -811,6 +817,16 @@ func runAll(bin string, scs []*Scenario, procs int) []*played {
 					}
 				}
 				pl, alive := ch.play(scs[i])
+				if pl.hung {
+					// the session RUNNER did not come back (overloaded machine?): once more in a fresh process
+					fmt.Fprintf(os.Stderr, "[c11] scenario %s did not come back, retrying in a fresh process\n%s\n", scs[i].ID, tailStr(pl.stderr, 6000))
+					ch.kill()
+					var err error
+					if ch, err = startChild(bin, p); err != nil {
+						vlib.Infra("cannot start the session process: %v", err)
+					}
+					pl, alive = ch.play(scs[i])
+				}
 				out[i] = pl
 				if !alive {
 					ch.kill()
